@@ -424,6 +424,7 @@ def main():
         xenv = {'VERIF_EXHAUSTIVE': '1'} if (args.tier == 'thorough' and engine == 'fenv' and prop == 'C11' and any(fnmatch.fnmatchcase(c['id'], p_) for p_ in EXHAUSTIVE_CFGS)) else None
         with cf.ThreadPoolExecutor(max_workers=NCPU) as ex:
             res = list(ex.map(lambda s_: run_worker(binp, base + ['--start', str(s_)], 14400, xenv), range(NCPU)))
+        print('[check] %s: batch finished in %.1fs' % (c['id'], time.time() - t_)); sys.stdout.flush()
         return {'ga': g[0], 'gb': g[1:], 'gate_n': gate_n, 'base': base, 'xenv': xenv, 'res': res, 'wall': time.time() - t_}
 
     with cf.ThreadPoolExecutor(max_workers=int(os.environ.get('VERIF_CFG_PAR', '2'))) as cex:
